@@ -7,7 +7,7 @@ import subprocess
 import tempfile
 import time
 
-CONTRACT_MODULES = ['c05_nests', 'c05_logit']
+CONTRACT_MODULES = ['c05_nests', 'c05_logit', 'c05c_nodes', 'c05c_builders']
 LEVEL = 'other'
 TRUSTED = ['pyvc (VC generator, Python semantics of the stated subset)', 'z3 5.1.0 / cvc5',
            'mpmath 30-digit arithmetic and sympy differentiation (checking half of the translation validation)',
